@@ -187,10 +187,31 @@ def plan(tier, seed):
     return specs
 
 
-def matches_for(n):
+_ENVS = {}
+
+
+def matches_for(n, falsy=None):
+    """n matches; with falsy="bool"/"len", instances of a match_class (the documented hook) whose truth value /
+    length follows the matched value, over values most of which are falsy."""
     import jsonpath
 
-    return list(jsonpath.finditer("$[*]", [{"id": i} for i in range(n)]))
+    if not falsy:
+        return list(jsonpath.finditer("$[*]", [{"id": i} for i in range(n)]))
+    if falsy not in _ENVS:
+        if falsy == "bool":
+            class M(jsonpath.JSONPathMatch):
+                def __bool__(self):
+                    return bool(self.obj)
+        else:
+            class M(jsonpath.JSONPathMatch):
+                def __len__(self):
+                    return len(self.obj) if hasattr(self.obj, "__len__") else int(bool(self.obj))
+
+        class E(jsonpath.JSONPathEnvironment):
+            match_class = M
+        _ENVS[falsy] = E()
+    vals = [0, "", [], {}, None, False, 1, "x", 0.0, [0]]
+    return list(_ENVS[falsy].finditer("$[*]", [vals[(i * 7 + 3) % len(vals)] if i % 4 else vals[i % 6] for i in range(n)]))
 
 
 def run(spec, ctx):
@@ -212,6 +233,14 @@ def run(spec, ctx):
                     diff, p = run_chain(ms, chain, term, env)
                     pulls += p
                     total += 1
+                    if not diff and length <= 2:
+                        for fk in ("bool", "len"):
+                            fms = matches_for(n, fk)
+                            diff, p = run_chain(fms, chain, term, _ENVS[fk])
+                            total += 1
+                            if diff:
+                                diff = "with a match class whose instances can be falsy (%s): %s" % (fk, diff)
+                                break
                     if not diff and length == 1:
                         # the same chain after pulling 1 match by plain iteration from a generator source
                         diff, p = run_chain(ms, (("pull", 1),) + tuple(chain), term, env, source="generator")
@@ -251,6 +280,10 @@ def run(spec, ctx):
                 q0 = r.choice([lambda: jsonpath.query("$[*]", data), lambda: env.query("$[*]", data), lambda: jsonpath.compile("$[*]").query(data)])()
                 ms = list(q0)
                 ctx.count("chains_on_entry_point_queries")
+            if r.random() < 0.15:
+                fk = r.choice(["bool", "len"])
+                ms = matches_for(n, fk)
+                ctx.count("chains_on_falsy_match_objects")
             diff, p = run_chain(ms, chain, term, env, order_rng=r, source=r.choice(["iterator", "generator", "generator"]))
             ctx.evaluation()
             ctx.case(h(n, chain, term))
@@ -274,9 +307,10 @@ def replay(case, ctx):
 
     import jsonpath
 
-    ms = matches_for(case["n"])
     ctx.evaluation()
-    for seed in range(6):
+    for seed in range(18):
+        ms = matches_for(case["n"], [None, "bool", "len"][seed // 6])
+        seed %= 6
         diff, _ = run_chain(ms, [tuple(x) for x in case["chain"]], case["terminal"], jsonpath.DEFAULT_ENV, order_rng=random.Random(seed) if seed else None, source="generator" if seed % 2 else "iterator")
         if diff:
             ctx.violation("chain-differs-from-list-model:replay", case, {"diff": diff})
